@@ -2,7 +2,12 @@ import Verif.Props.C01D
 open Verif.Props.C01D
 #print axioms merge_decls_sound
 #print axioms merge_decls_sound_prog
-#print axioms merge_assign_sound_counterexample
+#print axioms code_checks_own_function
+#print axioms code_optimizes_loops_in_endsInIf
+#print axioms code_writes_empty_decl_body
+#print axioms merge_assign_needs_own_function
+#print axioms merge_assign_sound
+#print axioms merge_assign_sound_prog
 #print axioms merge_assign_sound_partial
 #print axioms merge_assign_sound_partial_prog
 #print axioms comma_split_sound
